@@ -1,16 +1,21 @@
 #!/usr/bin/env bash
 # tools/regress_seeds.sh [ID ...] — re-run every kept seeded change against the check of its own
-# property (quick tier) and report which are (still) detected.  Applies each patch to /repo and
-# ALWAYS reverts (tools/try_seed.sh).  Output: one line per seed; exit 1 if any is missed.
+# property and the checks named in its meta.json "detected_by" (quick tier) and report which are
+# (still) detected.  Applies each patch to /repo and ALWAYS reverts (tools/try_seed.sh).
+# Output: one line per seed; exit 1 if any is missed.
 cd /verif
 IDS="${*:-$(ls seeded)}"
 miss=0; tot=0
 for id in $IDS; do
   for d in seeded/$id/*/; do
     m=$(basename "$d"); tot=$((tot+1))
-    out=$(tools/try_seed.sh "$d/patch.diff" quick "$id" 2>&1)
-    if echo "$out" | grep -q "^== $id quick rc=1"; then
-      echo "detected $id/$m :: $(echo "$out" | grep -m1 'signature:' | sed 's/^ *//')"
+    also=$(python3 -c "import json,re,sys;print(' '.join(sorted(set(re.findall(r'\bC\d\d\b', json.load(open('$d/meta.json')).get('detected_by',''))) - {'$id'})))" 2>/dev/null)
+    out=$(tools/try_seed.sh "$d/patch.diff" quick $id $also 2>&1)
+    own=$(echo "$out" | grep -c "^== $id quick rc=1")
+    any=$(echo "$out" | grep -E "^== C[0-9]+ quick rc=1" | awk '{print $2}' | tr '\n' ' ')
+    if [ -n "$any" ]; then
+      echo "detected $id/$m by: $any:: $(echo "$out" | grep -m1 'signature:' | sed 's/^ *//')"
+      [ "$own" = "0" ] && echo "   note: not by its own property's check"
     else
       miss=$((miss+1)); echo "MISSED   $id/$m :: $(echo "$out" | grep -E '^== ' | tr '\n' ' ')"
     fi
